@@ -187,6 +187,61 @@ theorem calRowCheck_sound {raw bias : Array Dec} {b : Nat} (h : calRowCheck raw 
     exact this
   · rw [← getD_rowC raw bias hsz]; exact hlast
 
+
+/-! ### consequences of `CalRow` -/
+
+theorem stepLo_pos (b : Nat) : 1 ≤ stepLo b := by unfold stepLo; omega
+theorem stepLo_le_stepHi (b : Nat) : stepLo b ≤ stepHi b := by
+  unfold stepLo stepHi; generalize 2 ^ b / 40 = q; omega
+
+/-- The calibrated cardinalities grow by at least `stepLo` and at most `stepHi` per table point. -/
+theorem CalRow.affine {raw bias : Array Dec} {b : Nat} (h : CalRow raw bias b) :
+    ∀ i, i < raw.size → 1 + (i : Int) * stepLo b ≤ calC raw bias i ∧ calC raw bias i ≤ 1 + (i : Int) * stepHi b := by
+  obtain ⟨_, _, _, _, h0, hstep, _⟩ := h
+  intro i
+  induction i with
+  | zero => intro _; rw [h0]; simp
+  | succ i ih =>
+    intro hi
+    have ⟨l, u⟩ := ih (by omega)
+    have hle : (stepLo b : Int) ≤ stepHi b := by exact_mod_cast stepLo_le_stepHi b
+    have e1 : ((i + 1 : Nat) : Int) * (stepLo b : Int) = (i : Int) * stepLo b + stepLo b := by
+      rw [Int.natCast_add, Int.add_mul]; simp
+    have e2 : ((i + 1 : Nat) : Int) * (stepHi b : Int) = (i : Int) * stepHi b + stepHi b := by
+      rw [Int.natCast_add, Int.add_mul]; simp
+    rw [e1, e2]
+    rcases hstep i hi with hs | hs <;> omega
+
+/-- … in particular they are strictly increasing along the row. -/
+theorem CalRow.strictMono {raw bias : Array Dec} {b : Nat} (h : CalRow raw bias b) :
+    ∀ j i, i < j → j < raw.size → calC raw bias i < calC raw bias j := by
+  obtain ⟨_, _, _, _, _, hstep, _⟩ := h
+  have hlo : (1 : Int) ≤ stepLo b := by exact_mod_cast stepLo_pos b
+  have hhi : (1 : Int) ≤ stepHi b := by have := stepLo_le_stepHi b; omega
+  intro j
+  induction j with
+  | zero => intro i hi; omega
+  | succ j ih =>
+    intro i hij hj
+    have hs := hstep j hj
+    by_cases hij' : i = j
+    · subst hij'; rcases hs with hs | hs <;> omega
+    · have := ih i (by omega) (by omega)
+      rcases hs with hs | hs <;> omega
+
+/-- every calibrated cardinality of the row lies in `1 … 5·2^b` -/
+theorem CalRow.range {raw bias : Array Dec} {b : Nat} (h : CalRow raw bias b) (i : Nat)
+    (hi : i < raw.size) : 1 ≤ calC raw bias i ∧ calC raw bias i ≤ 5 * 2 ^ b := by
+  have h0 := h.2.2.2.2.1
+  have hlast := h.2.2.2.2.2.2
+  constructor
+  · by_cases hi0 : i = 0
+    · subst hi0; omega
+    · have := h.strictMono i 0 (by omega) hi; omega
+  · by_cases hil : i = raw.size - 1
+    · subst hil; exact hlast
+    · have := h.strictMono (raw.size - 1) i (by omega) (by omega); omega
+
 theorem calRow0 : CalRow rawDec0 biasDec0 4 := calRowCheck_sound (by decide +kernel)
 theorem calRow1 : CalRow rawDec1 biasDec1 5 := calRowCheck_sound (by decide +kernel)
 theorem calRow2 : CalRow rawDec2 biasDec2 6 := calRowCheck_sound (by decide +kernel)
